@@ -160,6 +160,36 @@ def response_paths(doc: DocumentNode, op: OperationDefinitionNode) -> Dict[Tuple
     return out
 
 
+def static_field_types(doc: DocumentNode, op: OperationDefinitionNode, schema) -> Dict[Tuple, Set[str]]:
+    """Response-key path -> the set of *statically declared* GraphQL types of its occurrences (a key selected on an interface and again
+    inside a fragment on an implementing object can have two different, covariant, types)."""
+    frags = {d.name.value: d for d in doc.definitions if isinstance(d, FragmentDefinitionNode)}
+    out: Dict[Tuple, Set[str]] = {}
+    root = {"query": schema.query_type, "mutation": schema.mutation_type, "subscription": schema.subscription_type}[op.operation.value]
+
+    def visit(selset, path: Tuple, t, stack: Tuple):
+        for sel in selset.selections:
+            if isinstance(sel, FieldNode):
+                if sel.name.value == "__typename" or not hasattr(t, "fields") or sel.name.value not in t.fields:
+                    continue
+                key = sel.alias.value if sel.alias else sel.name.value
+                ft = t.fields[sel.name.value].type
+                out.setdefault(path + (key,), set()).add(str(ft))
+                if sel.selection_set:
+                    visit(sel.selection_set, path + (key,), get_named_type(ft), stack)
+            elif isinstance(sel, InlineFragmentNode):
+                tt = schema.type_map[sel.type_condition.name.value] if sel.type_condition else t
+                visit(sel.selection_set, path, tt, stack)
+            elif isinstance(sel, FragmentSpreadNode):
+                name = sel.name.value
+                if name in stack:
+                    continue
+                visit(frags[name].selection_set, path, schema.type_map[frags[name].type_condition.name.value], stack + (name,))
+
+    visit(op.selection_set, (), root, ())
+    return out
+
+
 # --------------------------------------------------------------------------- C05 corruptions
 
 
@@ -211,7 +241,8 @@ def type_at(types: Dict[Tuple, Any], path: Tuple):
     return t
 
 
-def corruptions(data: Dict[str, Any], types: Dict[Tuple, Any], rpaths: Dict[Tuple, Dict[str, Any]], custom_any: Set[str], limit: int, rng) -> List[Tuple[str, Tuple, Any]]:
+def corruptions(data: Dict[str, Any], types: Dict[Tuple, Any], rpaths: Dict[Tuple, Dict[str, Any]], custom_any: Set[str], limit: int, rng,
+                static_types: Optional[Dict[Tuple, Set[str]]] = None) -> List[Tuple[str, Tuple, Any]]:
     """-> [(kind, path, corrupted data)] single-point corruptions that the statement says must be rejected."""
     out: List[Tuple[str, Tuple, Any]] = []
     positions = [p for p in enumerate_positions(data) if p[0]]
@@ -237,7 +268,14 @@ def corruptions(data: Dict[str, Any], types: Dict[Tuple, Any], rpaths: Dict[Tupl
             out.append(("key-removed", path, set_at(data, path, None, remove=True)))
         if isinstance(named, GraphQLScalarType) and named.name in custom_any:
             continue  # typed Any: cannot reject anything, by the statement's own mapping
-        if isinstance(t, GraphQLNonNull) and (unconditional or not is_key):
+        # the runtime type's declaration can be stricter (covariant) than the declaration the selection was written against:
+        # only positions whose every static occurrence agrees with what the executor used are obligations
+        field_path = path
+        while field_path and isinstance(field_path[-1], int):
+            field_path = field_path[:-1]
+        st = (static_types or {}).get(key_path(field_path))
+        agrees = static_types is None or (st is not None and st == {str(types.get(field_path))})
+        if isinstance(t, GraphQLNonNull) and (unconditional or not is_key) and agrees:
             out.append(("null-at-nonnull", path, set_at(data, path, None)))
         if value is None:
             continue
